@@ -157,6 +157,7 @@ ConstProgs == <<
 \* for i := 0; i < 4; i++ { if i == c.cj { continue }; if i == c.bj { break }; log(i) } ; post statement observable
 LoopProg(c) ==
   LET guard(j, st) == IF j >= 0 THEN <<If(Bin("==", Id("i"), I(j)), <<st>>, <<>>)>> ELSE <<>>
+      oguard(j, st) == IF j >= 0 THEN <<If(Bin("==", Id("o"), I(j)), <<st>>, <<>>)>> ELSE <<>>
       body == guard(c.cj, Cnt) \o guard(c.bj, Brk) \o <<Log(Id("i"))>>
   IN CASE c.kind = "for"   -> <<For(<<Def("i", I(0))>>, Bin("<", Id("i"), I(4)), <<Inc("i")>>, body), Ret(I(0))>>
        [] c.kind = "forin" -> <<ForIn("_", "i", Arr(<<I(0), I(1), I(2), I(3)>>), body), Ret(I(0))>>
@@ -164,7 +165,17 @@ LoopProg(c) ==
        [] c.kind = "nested" -> <<For(<<Def("o", I(0))>>, Bin("<", Id("o"), I(2)), <<Inc("o")>>,
                                      <<For(<<Def("i", I(0))>>, Bin("<", Id("i"), I(4)), <<Inc("i")>>, body), Log(S("outer"))>>), Ret(I(0))>>
        [] c.kind = "infn" -> <<Def("f", Fn0(<<For(<<Def("i", I(0))>>, Bin("<", Id("i"), I(4)), <<Inc("i")>>, body), Ret(S("done"))>>)), Ret(C0(Id("f")))>>
-LoopIdx == [f : {"loop"}, kind : {"for", "forin", "forinkey", "nested", "infn"}, cj : -1..3, bj : -1..3]
+       \* continue / break of the OUTER loop written after a complete inner loop (the compiler keeps a stack of open loops:
+       \* the outer loop's bookkeeping must survive the inner loop), two and three loops deep, for and for-in, in a function
+       [] c.kind = "after" -> <<For(<<Def("o", I(0))>>, Bin("<", Id("o"), I(4)), <<Inc("o")>>,
+                                    <<For(<<Def("i", I(0))>>, Bin("<", Id("i"), I(2)), <<Inc("i")>>, <<Log(Id("i"))>>)>> \o oguard(c.cj, Cnt) \o oguard(c.bj, Brk) \o <<Log(Id("o"))>>), Ret(I(0))>>
+       [] c.kind = "afterin" -> <<Def("f", Fn0(<<ForIn("_", "o", Arr(<<I(0), I(1), I(2), I(3)>>),
+                                    <<ForIn("_", "i", Arr(<<I(7), I(8)>>), <<Log(Id("i"))>>)>> \o oguard(c.cj, Cnt) \o oguard(c.bj, Brk) \o <<Log(Id("o"))>>), Ret(S("done"))>>)), Ret(C0(Id("f")))>>
+       [] c.kind = "after3" -> <<For(<<Def("o", I(0))>>, Bin("<", Id("o"), I(4)), <<Inc("o")>>,
+                                    <<For(<<Def("m", I(0))>>, Bin("<", Id("m"), I(2)), <<Inc("m")>>,
+                                          <<ForIn("_", "i", Arr(<<I(7)>>), <<Log(Id("i"))>>), If(Bin("==", Id("m"), I(1)), <<Brk>>, <<>>), Log(S("mid"))>>)>>
+                                    \o oguard(c.cj, Cnt) \o oguard(c.bj, Brk) \o <<Log(Id("o"))>>), Ret(I(0))>>
+LoopIdx == [f : {"loop"}, kind : {"for", "forin", "forinkey", "nested", "infn", "after", "afterin", "after3"}, cj : -1..3, bj : -1..3]
 
 (* ------------------------------------------- C01: shadowing of builtins *)
 G == Def("g", Fn(<<"x">>, FALSE, <<Ret(Bin("+", S("g:"), Id("x")))>>))
@@ -231,13 +242,22 @@ FoldVals == <<I(0), I(1), I(2), I(7), Un("-", I(1)), S(""), S("a"), T, F, U,
 FoldOps == <<"+", "-", "*", "/", "==", "!=", "<", ">", "&&", "||", "%", "<<", ">>", "&", "|", "^", "&^", "<=", ">=">>
 \* where the constant expression sits: returned, in a function that is called, in dead code
 FoldProg(c) ==
-  LET e == Bin(FoldOps[c.op], FoldVals[c.a], FoldVals[c.b]) IN
+  LET e == Bin(FoldOps[c.op], FoldVals[c.a], FoldVals[c.b])
+      ke == Bin(FoldOps[c.op], Id("k"), FoldVals[c.b]) IN
   CASE c.pos = "ret"  -> <<Ret(e)>>
     [] c.pos = "fn"   -> <<Def("f", Fn0(<<Ret(e)>>)), Ret(C0(Id("f")))>>
     [] c.pos = "dead" -> <<Def("f", Fn0(<<Ret(e)>>)), Ret(I(3))>>
     [] c.pos = "iff"  -> <<If(F, <<Ret(e)>>, <<>>), Ret(I(4))>>
     [] c.pos = "var"  -> <<Def("x", FoldVals[c.a]), Ret(Bin(FoldOps[c.op], Id("x"), FoldVals[c.b]))>>
+    \* the left operand is a literal constant (the compiler substitutes and folds such expressions itself, while
+    \* compiling): in an expression used twice, in the index of a compound assignment (compiled for the read and
+    \* again for the write), repeated implicitly in a constant group, in a function compiled after the first use
+    [] c.pos = "ktwice" -> <<Const("k", FoldVals[c.a]), Def("p", ke), Ret(Arr(<<Id("p"), ke>>))>>
+    [] c.pos = "kidx"   -> <<Const("k", FoldVals[c.a]), Def("arr", Arr(<<I(10), I(20), I(30), I(40)>>)), CmpI(Id("arr"), ke, "+", I(5)), Ret(Arr(<<Id("arr"), ke>>))>>
+    [] c.pos = "kgroup" -> <<Const("k", FoldVals[c.a]), ConstG(<<"p", "q", "r">>, ke), Ret(Arr(<<Id("p"), Id("q"), Id("r"), ke>>))>>
+    [] c.pos = "kfn"    -> <<Const("k", FoldVals[c.a]), Def("arr", Arr(<<I(10), I(20), I(30)>>)), Def("f", Fn0(<<CmpI(Id("arr"), ke, "-", I(1)), Ret(Arr(<<Id("arr"), ke>>))>>)), Ret(Arr(<<C0(Id("f")), C0(Id("f"))>>))>>
 FoldIdx == [f : {"fold"}, op : 1..Len(FoldOps), a : 1..Len(FoldVals), b : 1..Len(FoldVals), pos : {"ret", "fn", "dead", "iff", "var"}]
+           \cup [f : {"fold"}, op : 1..Len(FoldOps), a : {1, 2, 3, 4, 5, 7, 11, 15}, b : {1, 2, 3, 5, 7, 12, 15}, pos : {"ktwice", "kidx", "kgroup", "kfn"}]
 \* does the constant expression itself raise an error when evaluated (the optimizer may then refuse the script)
 FoldRaises(c) == LET r == RunP(P0(<<Ret(Bin(FoldOps[c.op], FoldVals[c.a], FoldVals[c.b]))>>)) IN r.o[1] = "thr"
 
@@ -360,8 +380,10 @@ DisModIdx == [f : {"dismod"}, nm : DisNames, v : 1..8, d : SUBSET DisNames]
 (* ------------------------------------------------- C12: import graphs *)
 \* a module imports its dependencies (binding them), and returns a fresh mutable map
 \* {n: name, c: 0, d1: <first dependency's object>, d2: ...}
-ModBody(name, deps) ==
-  [i \in 1..Len(deps) |-> Def("x" \o ToString(i), Import(deps[i]))]
+\* (lazy: the import expression stands inside a function literal the module calls at once - the import edge then
+\*  leaves a function of the module, not its top level)
+ModBody(name, deps, lazy) ==
+  [i \in 1..Len(deps) |-> Def("x" \o ToString(i), IF lazy THEN C0(Fn0(<<Ret(Import(deps[i]))>>)) ELSE Import(deps[i]))]
   \o <<Ret(MapL(<<"n", "c">> \o [i \in 1..Len(deps) |-> "d" \o ToString(i)],
                 <<S(name), I(0)>> \o [i \in 1..Len(deps) |-> Id("x" \o ToString(i))]))>>
 \* graph number -> dependencies of m1, m2, m3
@@ -374,10 +396,14 @@ GraphDeps(g) == CASE g = 1 -> << <<>>, <<>>, <<>> >>
                   [] g = 7 -> << <<"nope">>, <<>>, <<>> >>            \* unknown module
                   [] g = 8 -> << <<"m2", "m3">>, <<"m3">>, <<>> >>
                   [] g = 9 -> << <<"m2">>, <<"m3">>, <<"m1">> >>      \* cycle of length 3
-GraphBad(g) == g \in {5, 6, 7, 9}
+                  [] g = 10 -> << <<"m2">>, <<"m1">>, <<>> >>         \* cycle of length 2, every edge inside a function literal
+                  [] g = 11 -> << <<"m2">>, <<"m3">>, <<"m1">> >>     \* cycle of length 3, two of its edges inside function literals
+                  [] g = 12 -> << <<"m2">>, <<"m3">>, <<>> >>         \* chain through function literals
+LazyMods(g) == CASE g = 10 -> {"m1", "m2"} [] g = 11 -> {"m1", "m3"} [] g = 12 -> {"m1", "m2"} [] OTHER -> {}
+GraphBad(g) == g \in {5, 6, 7, 9, 10, 11}
 BmBody == <<Ret(MapL(<<"x", "lim">>, <<I(10), MapL(<<"max">>, <<I(10)>>)>>))>>
 ModsOf(g) == LET d == GraphDeps(g) IN
-             [x \in {"m1", "m2", "m3", "bm"} |-> IF x = "bm" THEN BmBody ELSE ModBody(x, d[CASE x = "m1" -> 1 [] x = "m2" -> 2 [] x = "m3" -> 3])]
+             [x \in {"m1", "m2", "m3", "bm"} |-> IF x = "bm" THEN BmBody ELSE ModBody(x, d[CASE x = "m1" -> 1 [] x = "m2" -> 2 [] x = "m3" -> 3], x \in LazyMods(g))]
 ModMain(site) ==
   CASE site = 1 -> <<Def("a", Import("m1")), Def("b", Import("m1")), AsgS(Id("a"), "c", I(5)), Ret(Arr(<<Sel(Id("b"), "c"), Sel(Id("a"), "n")>>))>>
     [] site = 2 -> <<Def("f", Fn0(<<Ret(Import("m1"))>>)), Def("x", C0(Id("f"))), AsgS(Id("x"), "c", I(7)),
@@ -413,7 +439,7 @@ ModMain(site) ==
     [] site = 13 -> <<Def("m", Import("bm")), AsgS(Id("m"), "x", Bin("+", Sel(Id("m"), "x"), I(5))), Ret(Arr(<<Sel(Import("bm"), "x"), Sel(Sel(Id("m"), "lim"), "max")>>))>>
     [] site = 14 -> <<Def("f", Fn0(<<Def("m", Import("bm")), AsgS(Sel(Id("m"), "lim"), "max", Bin("+", Sel(Sel(Id("m"), "lim"), "max"), I(1))), Ret(Sel(Sel(Id("m"), "lim"), "max"))>>)),
                       Ret(Arr(<<C0(Id("f")), C0(Id("f")), Sel(Sel(Import("bm"), "lim"), "max")>>))>>
-ModIdx == [f : {"mod"}, g : 1..9, site : 1..14]
+ModIdx == [f : {"mod"}, g : 1..12, site : 1..14]
 HostGlobals == [x \in {"cbcall", "cbcall2"} |-> VBi(x)]
 ModProg(c) == [P0(ModMain(c.site)) EXCEPT !.mods = ModsOf(c.g), !.globals = IF c.site \in {7, 8} THEN HostGlobals ELSE <<>>]
 \* static verdict: does the compiler have to refuse (cycle / unknown module reachable from an import expression of the main script)
@@ -426,7 +452,7 @@ MainImports(site) == CASE site \in {1, 2, 7, 9} -> {"m1"} [] site \in {8, 10, 11
                        [] site = 12 -> {"m1"} [] site \in {13, 14} -> {}
 ModRefused(c) == LET r == Reach(c.g, MainImports(c.site), {}) IN
                  \/ "nope" \in r
-                 \/ (c.g = 5 /\ {"m1", "m2"} \cap r # {}) \/ (c.g = 6 /\ "m1" \in r) \/ (c.g = 9 /\ {"m1", "m2", "m3"} \cap r # {})
+                 \/ (c.g \in {5, 10} /\ {"m1", "m2"} \cap r # {}) \/ (c.g = 6 /\ "m1" \in r) \/ (c.g \in {9, 11} /\ {"m1", "m2", "m3"} \cap r # {})
 
 (* ------------------------------------------- C10: fragment sessions *)
 \* top-level statement sequences; a session cuts them into consecutive fragments
@@ -467,6 +493,11 @@ FragSeqs == <<
     If(T, <<Def("a", I(7)), Log(Bin("+", Id("a"), I(1)))>>, <<>>), ExprS(Arr(<<Id("a"), C1(Id("f"), I(9))>>))>>,
   <<ConstG(<<"p", "q">>, Id("iota")), Def("r", Arr(<<>>)), ForIn("p", "q", Arr(<<I(5), I(6)>>), <<Asg("r", Call(Id("append"), <<Id("r"), Bin("+", Id("p"), Id("q"))>>))>>),
     Try(<<Thr(S("t"))>>, TRUE, "q", <<Asg("r", Call(Id("append"), <<Id("r"), Bin("==", Id("q"), I(1))>>))>>, FALSE, <<>>), ExprS(Arr(<<Id("r"), Id("p"), Id("q")>>))>>,
+  \* negative zero and zero are two constants although they are equal (no reference outcome: session against single script)
+  <<Def("a", Raw("-0.0", TRUE)), ExprS(C1(Id("string"), Id("a"))), Def("b", Raw("0.0", TRUE)), ExprS(C1(Id("string"), Id("b"))),
+    ExprS(Arr(<<C1(Id("string"), Id("a")), C1(Id("string"), Id("b")), C1(Id("string"), Raw("0.0", TRUE))>>))>>,
+  <<Def("z", Raw("0.0", TRUE)), Def("f", Fn0(<<Ret(C1(Id("string"), Bin("*", Id("z"), Raw("-1.0", FALSE))))>>)), ExprS(C1(Id("string"), Raw("-0.0", TRUE))),
+    ExprS(C1(Id("string"), Raw("0.0", TRUE))), ExprS(Arr(<<C0(Id("f")), C1(Id("string"), Id("z"))>>))>>,
   \* (a constant declaration emits no code: a fragment ending in one reports whatever value the statement before left, so it is not put last)
   <<Var("len"), Const("int", I(3)), Asg("len", Fn(<<"v">>, FALSE, <<Ret(S("mine"))>>)), ExprS(C1(Id("len"), S("ab"))), ExprS(Arr(<<Id("int"), C1(Id("len"), Arr(<<>>))>>))>>
 >>
@@ -676,7 +707,7 @@ ExportFrag == (ph = 1 /\ c.f = "frag") =>
 Export == (ph = 1 /\ c.f # "frag" /\ (c.f = "scope" => ScValid(c))) => LET p == ProgOf(c)  mref == (c.f = "mod" /\ ModRefused(c)) IN
    CSVWrite("%1$s", <<ToJson([fam |-> c.f, id |-> c, prog |-> p, exp |-> (IF mref THEN NoExp ELSE RunP(p)), modrefused |-> mref,
                               mayrefuse |-> (c.f = "xfold" \/ (c.f = "fold" /\ FoldRaises(c))),
-                              refknown |-> (IF c.f = "xfold" THEN FALSE ELSE IF c.f = "fold" THEN FoldExprKnown(c) ELSE IF mref THEN TRUE ELSE RefKnown(p)),
+                              refknown |-> (IF c.f = "xfold" THEN FALSE ELSE IF c.f = "fold" THEN (FoldExprKnown(c) /\ c.pos \notin {"kidx", "kfn"}) ELSE IF mref THEN TRUE ELSE RefKnown(p)),
                               refused |-> (ProgRefs(p) \cap p.disabled # {}),
                               \* a reference inside a branch the compiler removes (literal false condition) need not be reported
                               refopt |-> (c.f = "dismod" /\ c.v = 7)])>>, IOEnv.OUT)
